@@ -55,8 +55,13 @@ pub mod sim {
     pub static GLOBAL_CONFIGURED: AtomicBool = AtomicBool::new(false);
     pub static BUILD_GLOBAL_REFUSED: AtomicU64 = AtomicU64::new(0);
 
-    /// End the global pool (call once `main` has returned so that every task finishes).
+    /// End the global pool (call once `main` has returned so that every task finishes), and the
+    /// pools whose handle was dropped while a panic was unwinding (see `Drop for ThreadPool`).
     pub fn shutdown() {
+        let zombies: Vec<_> = std::mem::take(&mut *ZOMBIES.lock().unwrap());
+        for p in zombies {
+            p.terminate();
+        }
         let g = GLOBAL.lock().unwrap().take();
         if let Some(p) = g {
             p.terminate();
@@ -126,6 +131,7 @@ impl<F: FnOnce(bool) -> R, R> StackJob<F, R> {
 }
 
 // ---------------------------------------------------------------- pool
+static ZOMBIES: std::sync::Mutex<Vec<Arc<Pool>>> = std::sync::Mutex::new(Vec::new());
 struct PoolState {
     deques: Vec<VecDeque<JobRef>>,
     injected: VecDeque<JobRef>,
@@ -653,6 +659,14 @@ impl ThreadPool {
 }
 impl Drop for ThreadPool {
     fn drop(&mut self) {
+        // A pool dropped while a panic unwinds through its owner (ska: `pool.install(..)` re-raising
+        // a worker's panic) must not touch shuttle primitives: shuttle treats any release during a
+        // panic as the end of the test and closes the semaphore under the waiting workers. The real
+        // pool just tells its workers to exit; here that is deferred to `sim::shutdown()`.
+        if std::thread::panicking() {
+            ZOMBIES.lock().unwrap().push(self.pool.clone());
+            return;
+        }
         self.pool.terminate();
     }
 }
